@@ -73,7 +73,7 @@ REJECT = {
     "context-malformed": (3, False), "run-space-duplicate-keys": (3, False), "unknown-trace-driver": (3, True),
     "run-space-mismatched-lengths": (3, True), "run-space-block-sizes-differ": (3, True),
     "run-space-over-max-runs": (3, True), "missing-context-key": (3, True), "run-space-attempt-zero": (3, True),
-    "run-space-duplicate-key-via-source": (3, True),
+    "run-space-duplicate-key-via-source": (3, True), "run-space-rename-collision": (3, True),
 }
 
 
@@ -122,7 +122,8 @@ def config_dict(case, nodes=None, rs=None):
     if rs is not None:
         block = {"combine": rs["combine"], "blocks": [dict({"mode": b["mode"], "context": {k: pg.v_impl(v) for k, v in b["context"]}},
                                                            **({"source": dict({"format": "csv", "path": b["source"]["path"]},
-                                                                               **({"mode": b["source"]["mode"]} if b["source"].get("mode") else {}))}
+                                                                               **dict(({"mode": b["source"]["mode"]} if b["source"].get("mode") else {}),
+                                                                                      **({"rename": dict(map(tuple, b["source"]["rename"]))} if b["source"].get("rename") else {})))}
                                                               if b.get("source") else {}))
                                                       for b in rs["blocks"]]}
         if rs.get("max_runs") is not None:
@@ -449,6 +450,15 @@ def mk_case(rng, cls, flags=None, trace=None):
         # a later block loads a column from a file whose name an earlier block already defines
         case["rs"]["blocks"] = case["rs"]["blocks"][:1] + [{"mode": "by_position", "context": [],
                                                             "source": {"path": "cols.csv", "cols": [["tag", ["x"] * case["n_runs"]]]}}]
+    elif cls == "run-space-rename-collision":
+        # a later block loads a file with the columns v and extra and renames v onto extra (either column order in the file):
+        # two columns under one name, an invalid run space
+        n_ = case["n_runs"]
+        cols = [["v", list(range(1, n_ + 1))], ["extra", list(range(11, 11 + n_))]]
+        if rng.random() < 0.5:
+            cols.reverse()
+        case["rs"]["blocks"] = case["rs"]["blocks"][:1] + [{"mode": "by_position", "context": [],
+                                                            "source": {"path": "ren.csv", "cols": cols, "rename": [["v", "extra"]]}}]
     elif cls == "run-space-mismatched-lengths":
         b = case["rs"]["blocks"][0]
         b["context"] = b["context"] + [["extra", [1] * (case["n_runs"] + 1)]]
@@ -500,7 +510,7 @@ def mk_case(rng, cls, flags=None, trace=None):
             k = rng.choice(pool)
             a["context"] = [kv for kv in a["context"] if kv[0] != k]
             case["missing"] = k
-    if case["rs"] is not None and cls != "run-space-duplicate-key-via-source" and rng.random() < 0.3:
+    if case["rs"] is not None and cls not in ("run-space-duplicate-key-via-source", "run-space-rename-collision") and rng.random() < 0.3:
         a["rs_file"] = rng.choice(["wrapped", "bare"])      # the run_space block lives in a separate file (--run-space-file)
     if rng.random() < 0.3:
         a["verbosity"] = rng.choice(["-v", "--verbose", None])      # the exit code does not depend on how much is printed
@@ -605,6 +615,12 @@ def gen_cases(rng, n_random, matrix=True):
             cases.append(c)
         for how in ("template", "rename"):
             cases.append(mk_case(rng, "missing-context-key", flags={"self_rewrite": how}, trace="yaml"))
+        for first in ("v", "extra"):      # the renamed column before / after the column it collides with
+            c = mk_case(rng, "run-space-rename-collision", trace="cli")
+            cols = c["rs"]["blocks"][-1]["source"]["cols"]
+            if cols[0][0] != first:
+                cols.reverse()
+            cases.append(c)
         # over the cap through a combinatorial SOURCE inside a by_position block (the planner and the expander must count alike)
         r2 = random.Random(rng.random())
         for _ in range(40):
@@ -659,7 +675,8 @@ def request_coq(case):
         cols_lit = lambda cs: cq_list([cq_pair(cq_str(k), cq_list(vs, rs_val)) for k, vs in cs])  # noqa: E731
         bl = ["(RunSpace.mkBlock %s %s %s)" % ("RunSpace.ByPosition" if b["mode"] == "by_position" else "RunSpace.Combinatorial",
                                                cols_lit(b["context"]),
-                                               "(Some (RunSpace.mkSource %s None [] %s))" % (cols_lit(b["source"]["cols"]),
+                                               "(Some (RunSpace.mkSource %s None %s %s))" % (cols_lit(b["source"]["cols"]),
+                                                                                                cq_list([cq_pair(cq_str(x), cq_str(y)) for x, y in (b["source"].get("rename") or [])]),
                                                                                                 "RunSpace.Combinatorial" if b["source"].get("mode") == "combinatorial" else "RunSpace.ByPosition")
                                                if b.get("source") else "None")
               for b in rs["blocks"]]
@@ -830,7 +847,43 @@ def run(ck):
     ck.cov["samples"] = [{"argv": argv_of(c), "class": c["cls"], "exit": o["rc"], "sinks": o["sinks"], "trace_files": len(o["trace_files"]),
                           "message_stage": o["stages"]} for c, o, _ in kept[:10]]
     ck.cov["trusted_base"] = TRUSTED
+    ck.notes["null_cell_runs"] = null_cell_oracle(ck)
     ck.log("correspondence: %d/%d agree; %s" % (len(kept) - len(bad), len(kept), {k: v for k, v in sorted(stats.items()) if k.startswith("exit:")}))
+
+
+def null_cell_oracle(ck):
+    """Direct oracle (values outside the model's integers and strings): a by_position source whose LATER row lacks a value for a
+    key a node requires (a JSON null, a short CSV row).  Either the launch is rejected before anything runs (exit 3, no file) or
+    every planned run completes (exit 0): never a launch that passes the gate on the strength of its first run and then fails."""
+    n = 0
+    for fmt, text in (("ndjson", '{"tag": "a"}\n{"tag": null}\n{"tag": "c"}\n'), ("json", '[{"tag": "a"}, {"tag": null}]'),
+                      ("csv", "tag,extra\r\na,1\r\n\r\nc,3\r\n"), ("csv", "tag,extra\r\na,1\r\n,2\r\n")):
+        d = tempfile.mkdtemp(prefix="verif_c17null_")
+        try:
+            doc = {"extensions": ["semantiva-examples"],
+                   "pipeline": {"nodes": [{"processor": "FloatValueDataSource", "parameters": {"value": 2.0}},
+                                          {"processor": 'template:"out_{tag}.txt":path'}, {"processor": "FloatTxtFileSaver"}]},
+                   "run_space": {"blocks": [{"mode": "by_position", "source": {"format": fmt, "path": "rows." + fmt}}]}}
+            import yaml
+            with open(os.path.join(d, "p.yaml"), "w") as f:
+                yaml.safe_dump(doc, f, sort_keys=False)
+            with open(os.path.join(d, "rows." + fmt), "w", newline="") as f:
+                f.write(text)
+            env = dict(os.environ)
+            env.update({"PYTHONPATH": core.REPO, "PYTHONHASHSEED": "0", "PYTHONDONTWRITEBYTECODE": "1"})
+            p = subprocess.run([core.PY, "-m", "semantiva.cli", "run", "p.yaml", "-q"], cwd=d, env=env, stdout=subprocess.PIPE, stderr=subprocess.PIPE,
+                               text=True, timeout=TIMEOUT)
+            outs = sorted(x for x in os.listdir(d) if x.startswith("out_"))
+            n += 1
+            if not (p.returncode == 0 or (p.returncode in (2, 3) and not outs)):
+                ck.fail_input("C17:gate-passed-on-the-first-run-only:" + fmt,
+                              "a %s source whose later row has no value for `tag` (%r): exit code %d with output files %s -- neither rejected before anything ran "
+                              "nor completed" % (fmt, text, p.returncode, outs), {"kind": "null-cell", "format": fmt, "text": text, "stderr": p.stderr[-300:]})
+        except Exception as ex:  # noqa
+            ck.corr_problem("null-cell oracle could not run (%s)" % fmt, repr(ex)[:300])
+        finally:
+            shutil.rmtree(d, ignore_errors=True)
+    return n
 
 
 def replay(obj):
